@@ -14,7 +14,7 @@ EXTENDS Naturals, Sequences, FiniteSets, TLC, Json
 
 CONSTANTS Depth, MUTANT
 Roles == {"root", "key_mgr"}
-Keys == {1, 2}
+Keys == {1, 2, 3}        \* 1, 2: private key values typed in (raw signatures); 3: an OpenPGP key named by its fingerprint (signed through the gpg path)
 Thr == 1..3
 
 VARIABLES orig,      \* thresholds of the metadata object passed in (must never change)
